@@ -103,6 +103,10 @@ def obligations(tier, ctx):
     nn = len(consts.size_cases(nlim))
     obs.append(Ob(name="nth_post", params=[("k", "int"), ("idsel", "int")], pre=[f"0 <= k < {nn}", ("idsel == 1" if tier == "quick" else "0 <= idsel <= 2")], call=f"H.posts_nth(k, idsel, {nlim})", backend="P", timeout=900,
                   family="(d) count: the (n+1)-th POST on one transport"))
+    nb = len(consts.size_cases(12))
+    for form in (0, 1):
+        obs.append(Ob(name=f"bounded_f{form}", params=[("k", "int"), ("cap", "int"), ("idsel", "int")], pre=[f"0 <= k < {nb}", "1 <= cap <= 3", "0 <= idsel <= 2"] + (["idsel == 1"] if tier == "quick" else []),
+                      call=f"H.posts_bounded(k, cap, idsel, {form})", backend="P", timeout=900, family="(d) back-pressure: read stream of symbolic capacity 1..3 and a late reader, 0..12 earlier requests"))
     from symcheck.runner import mirror
     obs += mirror(obs, r"^(post_body(0|1|7|9|11|12)|post_sse(0|3|7)|post_exc1|seq0|session_body0)$", "F", limit=(4 if tier == "quick" else None))
     return obs
